@@ -26,7 +26,7 @@ META = {
         "CDecay, Define and ModelAlias are rendered to text, parsed by the real DecFileParser with both values of "
         "include_ccdecays, and every table (mother set, every line's bf, daughters, PHOTOS flag, model, parameters) "
         "is compared with the tables the file states under the C03 conjugation rule. Exhaustive over the stated flag "
-        "lattice (1620 files, 4..15 tables of up to 7 lines), every permutation of 5 (quick) / 6-7 (thorough) chosen "
+        "lattice (1620 files, 1..15 tables of up to 7 lines), every permutation of 5 (quick) / 6-7 (thorough) chosen "
         "statements in three statement groups, and files whose daughters run through the EvtGen name table (a "
         "stride sample in the quick tier, all 806 names in the thorough tier). charge_conjugate_name itself is "
         "trusted here (it is the subject of C04). Not covered: files violating the section-7 preconditions "
@@ -75,21 +75,14 @@ def _interesting(stmts):
 
 
 def _minimise(stmts, include_cc):
-    def fails(cand):
-        return check_one(cand, include_cc) is not None
-    small = R.shrink_list(stmts, fails, budget=60)
-    # then drop lines of the remaining tables
-    for i, s in enumerate(small):
-        if s[0] != "Decay":
-            continue
-        lines = list(s[2])
+    """Fewest statements / lines with the same kind of failure (an exception stays an exception, a difference a difference)."""
+    first = check_one(stmts, include_cc) or ""
+    raised = " raised " in first
 
-        def fails_lines(ls, i=i, s=s):
-            cand = small[:i] + [["Decay", s[1], ls]] + small[i + 1:]
-            return check_one(cand, include_cc) is not None
-        lines = R.shrink_list(lines, fails_lines, budget=20)
-        small = small[:i] + [["Decay", s[1], lines]] + small[i + 1:]
-    return small
+    def fails(cand):
+        msg = check_one(cand, include_cc)
+        return msg is not None and (" raised " in msg) == raised
+    return R.minimise_stmts(stmts, fails, budget=60, line_budget=20)
 
 
 def _work(chunk):
@@ -188,7 +181,7 @@ def _name_table_files(tier, rng):
                            "Sigma_c++", "B_c+", "Omega_c0", "K+", "D*+") if cc(n) != n and not cc(n).startswith("ChargeConj(")]
     orders = [names]
     if tier == "quick":
-        orders = [names[::7] + names[3::61]]
+        orders = [names[::3] + names[1::40]]
     else:
         for _ in range(3):
             n2 = list(names)
@@ -226,6 +219,7 @@ def _name_table_files(tier, rng):
 
 def run(tier="quick", seed=0):
     t0 = time.time()
+    seed = seed if tier == "thorough" else 0      # VERIF_SEED only matters in the thorough tier (README)
     rng = random.Random(seed)
     families = [
         ("C03.lattice", "every combination of the flags cdecay_db x alias pair (none/fwd/rev, Decay on either member) x "
@@ -240,7 +234,7 @@ def run(tier="quick", seed=0):
          list(_permutations(tier)), True),
         ("C03.name_table", ("daughters running through all 806 names of the EvtGen name table (each name at least four "
                             "times: table order and 3 seeded shuffles)" if tier == "thorough" else
-                            "daughters from a stride sample of the EvtGen name table (every 7th name plus every 61st from 3)")
+                            "daughters from a stride sample of the EvtGen name table (every 3rd name plus every 40th from 1)")
          + ", 6 tables x 6 lines x 4-5 daughters per file incl. aliased, self-conjugate and unknown names, CDecay of every "
            "mother's conjugate before or after the Decay blocks",
          list(_name_table_files(tier, rng)), tier == "thorough"),
